@@ -557,6 +557,10 @@ func runCheck(o *checkOpts) int {
 				// vacuity guards only have to be "not refuted": a short budget is enough to catch a contradiction
 				to = 10
 			}
+			if !r.Claimed && to > 90 {
+				// stretch obligations are informative only: bound what the thorough tier spends on each
+				to = 90
+			}
 			sr := Solve(r.smt, smtDir, r.Name, to, mode)
 			r.Verdict = sr.Verdict
 			r.Solver = sr.Solver
